@@ -36,7 +36,7 @@ import (
 func TestStatefulHammer(t *testing.T) { hammer(t, statefulEntries(), "stateful_") }
 
 func statefulEntries() []*entry {
-	return append(gatedEntries(), exhaustedEntries()...)
+	return append(append(gatedEntries(), exhaustedEntries()...), replyEntries()...)
 }
 
 func gatedEntries() []*entry {
